@@ -200,6 +200,25 @@ func sMul(a, b string) string {
 	return "(* " + a + " " + b + ")"
 }
 
+// sIdx: index arithmetic off+i of a slice element. A symbolic offset is hidden behind the function idx (defined by
+// an axiom) so that quantifier patterns over slice elements contain no arithmetic operator.
+func sIdx(off, i string) string {
+	if o, ok := litVal(off); ok && o == 0 {
+		return i
+	}
+	if _, ok := litVal(off); ok {
+		if _, ok2 := litVal(i); ok2 {
+			return sAdd(off, i)
+		}
+	}
+	if n, ok := litVal(i); ok && n == 0 {
+		return off
+	}
+	return "(idx " + off + " " + i + ")"
+}
+
+func elemAt(base, off, i string) string { return "(elem " + base + " " + sIdx(off, i) + ")" }
+
 func sLe(a, b string) string {
 	x, ok1 := litVal(a)
 	y, ok2 := litVal(b)
@@ -242,6 +261,8 @@ STRGROUP(define-fun godiv ((a Int) (b Int)) Int (ite (>= a 0) (ite (> b 0) (div 
 (declare-fun bitand (Int Int) Int)
 (declare-fun bitor (Int Int) Int)
 (declare-fun bitxor (Int Int) Int)
+(declare-fun idx (Int Int) Int)
+(assert (forall ((o Int) (i Int)) (! (= (idx o i) (+ o i)) :pattern ((idx o i)))))
 (declare-fun shl (Int Int) Int)
 (declare-fun shr (Int Int) Int)
 (define-fun pow2 ((k Int)) Int POW2TABLE)
